@@ -2,7 +2,7 @@
 import abc
 import builtins
 import inspect
-from typing import Any, Dict, List, Tuple
+from typing import Any, Dict, List, Optional, Tuple
 
 from vkit import probe, prog
 from vkit.checks import c05
@@ -757,6 +757,27 @@ class K(Base, Right):
     pass
 OPS = [("new", (), {{}}), ("getattr", "v"), ("setattr", "v", 3), ("getattr", "v"), ("call", "left")]
 ''',
+    "members-re-used-in-an-unrelated-class-without-invariants": '''
+{deco}
+class Base{base}:
+    def __init__(self):
+        self.x = 1
+    def get(self, d=0):
+        return self.x + d
+    @property
+    def prop(self):
+        return self.x
+    def __len__(self):
+        return self.x
+class K:
+    """Unrelated to Base and without invariants of its own: it only borrows members."""
+    def __init__(self):
+        self.x = 2
+    get = Base.get
+    prop = Base.prop
+    __len__ = Base.__len__
+OPS = [("new", (), {{}}), ("call", "get"), ("call", "get", 3), ("getattr", "prop"), ("len",)]
+''',
     "singleton-new": '''
 {deco}
 class K{base}:
@@ -866,12 +887,17 @@ def class_metadata(cls: type) -> Dict[str, Any]:
     return out
 
 
-def run_ops(mod, ops) -> List[Any]:
-    """Drive the class ``K`` of a module through the operations; the log is compared between twins."""
+def run_ops(mod, ops, inv_counts: Optional[List[int]] = None) -> List[Any]:
+    """Drive the class ``K`` of a module through the operations; the log is compared between twins.
+
+    ``inv_counts`` (if given) receives the number of invariant evaluations on the instance under operation, per operation."""
     K = mod.K
     log = []  # type: List[Any]
     inst = None
     for op in ops:
+        n_before = sum(1 for e in mod.HUB.events if e.kind == "inv") if inv_counts is not None else 0
+        if inv_counts is not None:
+            inv_counts.append(0)
         try:
             if op[0] == "new":
                 inst = K(*op[1], **op[2])
@@ -951,6 +977,8 @@ def run_ops(mod, ops) -> List[Any]:
             else:
                 res = run_ops_extra(mod, op, inst)
             log.append(("ok", repr(res)))
+            if inv_counts is not None:
+                inv_counts[-1] = sum(1 for e in mod.HUB.events if e.kind == "inv") - n_before
         except Exception as err:  # pylint: disable=broad-except
             # the exception class is behaviour; the wording of the message is not compared
             log.append(("raise", type(err).__name__))
@@ -1034,8 +1062,17 @@ def run_classes(w) -> None:
                         w.violation("C14/class-member-metadata-differs/" + diff[0].split(".")[-1], "{}: members differ: {}".format(tag, [
                             (k, md_got.get(k), md_want.get(k)) for k in diff[:3]]), case)
                     want = run_ops(bare.module, bare.module.OPS)
-                    got = run_ops(dec.module, dec.module.OPS)
+                    inv_counts = []  # type: List[int]
+                    got = run_ops(dec.module, dec.module.OPS, inv_counts)
                     w.count("class_operations", len(want))
+                    # the invariants hold, so nothing is seen of them - but they are evaluated all the same, on the instance the call is
+                    # made on: a call by keyword of a public method is surrounded by the invariants selected for calls
+                    n_call_invs = {"call": 1, "setattr": 0, "all": 1, "two": 2}[iname]
+                    for i, op in enumerate(bare.module.OPS):
+                        if op[0] == "callkw" and i < len(got) and got[i][0] == "ok" and inv_counts[i] != 2 * n_call_invs:
+                            w.violation("C14/invariants-not-evaluated-on-the-instance-of-the-call", "{} ({}DBC, invariant {}): operation {} returned, "
+                                        "but the invariants were evaluated {} times around it (expected {})".format(
+                                            tag, "" if dbc else "no ", iname, op, inv_counts[i], 2 * n_call_invs), case)
                     n_inv = sum(1 for e in dec.hub.events if e.kind == "inv")
                     w.count("invariant_evaluations", n_inv)
                     if want != got:
